@@ -133,10 +133,13 @@ class FormatMixin:
                 if name not in self.ignore_namespace and namespace != '':
                     formatted_type_name += namespace + separator
 
+        # An instantiated template parameter (e.g. the T in std::vector<T>)
+        # carries the typename of its instantiation as `name`.
         if is_constructor:
-            formatted_type_name += self.data_type.get(name) or name
+            formatted_type_name += self.data_type.get(str(name)) or str(name)
         elif is_method:
-            formatted_type_name += self.data_type_param.get(name) or name
+            formatted_type_name += self.data_type_param.get(
+                str(name)) or str(name)
         else:
             formatted_type_name += str(name)
 
